@@ -80,7 +80,14 @@ func init() {
 	Link("C01", "C10", "(C10.H1/H3) only verified partial signatures enter the node.", []string{"H1", "H3"})
 	// one signing root per duty rests on QBFT's value lock: a ROUND-CHANGE that drops the prepared certificate lets a later
 	// round decide a second value for the same duty.
-	Link("C01", "C02", "(C02.Q5) every ROUND-CHANGE carries the prepared round/value/justification of the sender (value lock across rounds).", []string{"Q5"})
+	// The lock also rests on the followers enforcing it: a PRE-PREPARE is accepted only when it re-proposes the HIGHEST prepared value
+	// of its ROUND-CHANGE quorum (J2); otherwise a stale prepared value can be decided next to a later one (two signing
+	// roots for one duty).
+	Link("C01", "C02", "(C02.Q5) every ROUND-CHANGE carries the prepared round/value/justification of the sender (value lock across rounds); (C02.Q4) a justified PRE-PREPARE / ROUND-CHANGE / DECIDED is accepted only with its complete justification (the re-proposed value is the highest prepared value of the ROUND-CHANGE quorum).", []string{"Q5", "Q4"},
+		Mutant{ID: "C01-link-qrc-higher-prepared-tolerated", File: "core/qbft/qbft.go", Expect: "C02.Q4",
+			Old: "\t\tif rc.PreparedRound() > pr {\n\t\t\treturn zeroVal[V](), false\n\t\t}", New: "\t\tif rc.PreparedRound() > pr {\n\t\t\tcontinue\n\t\t}"},
+		Mutant{ID: "C01-link-qrc-higher-prepared-unreachable-test", File: "core/qbft/qbft.go", Expect: "C02.Q4",
+			Old: "\t\tif rc.PreparedRound() > pr {\n\t\t\treturn zeroVal[V](), false\n\t\t}", New: "\t\tif rc.PreparedRound() > pr && rc.PreparedRound() < pr {\n\t\t\treturn zeroVal[V](), false\n\t\t}"})
 }
 
 func init() {
@@ -95,5 +102,5 @@ func init() {
 func init() {
 	// the scheduler resolves duties through the duties cache (eth2wrap.DutiesCache): "every assigned duty is triggered"
 	// needs the cache to keep every fetched duty of a newly requested validator (a second proposal in one epoch included).
-	Link("C15", "C20", "(C20.Z6) the duties cache's amend path adds exactly the fetched duties of the newly requested validators, scanning the whole batch.", []string{"Z6"})
+	Link("C15", "C20", "(C20.Z6) the duties cache's amend path adds exactly the fetched duties of the newly requested validators, scanning the whole batch; (C20.Z7) a failed beacon request is reported to the caller and an answer holds only duties of the requested indices.", []string{"Z6", "Z7"})
 }
